@@ -332,8 +332,8 @@ enum { F_NONE, F_FILE, F_VALUE };
 struct ditem { int form; int dir; const char *val; };
 struct desig { struct ditem it[NIT]; };
 
-enum cfg { CFG_DEF, CFG_INH, CFG_FILE, CFG_VAL, CFG_S1, CFG_S2, CFG_S3, CFG_S4, CFG_C2, CFG_BADF, CFG_BADV, NCFG };
-static const char *CFG_NAME[NCFG] = { "def", "inh", "file", "val", "s1", "s2", "s3", "s4", "c2", "badf", "badv" };
+enum cfg { CFG_DEF, CFG_INH, CFG_FILE, CFG_VAL, CFG_S1, CFG_S2, CFG_S3, CFG_S4, CFG_S5, CFG_C2, CFG_BADF, CFG_BADV, NCFG };
+static const char *CFG_NAME[NCFG] = { "def", "inh", "file", "val", "s1", "s2", "s3", "s4", "s5", "c2", "badf", "badv" };
 
 static void desig_values(struct desig *d, const char *cert, const char *key, const char *tc)
 {
@@ -357,6 +357,7 @@ static void cfg_desig(int cfg, struct desig *d)
     case CFG_S2: desig_values(d, g_leafI, g_s2_key, g_root); break;
     case CFG_S3: desig_values(d, g_set[SET_A][IT_CERT], g_s3_key, g_root); break;
     case CFG_S4: desig_values(d, g_set[SET_A][IT_CERT], g_set[SET_A][IT_KEY], g_tc_both); break;
+    case CFG_S5: desig_values(d, g_set[SET_A][IT_CERT], g_set[SET_A][IT_KEY], g_root); break;   /* s4 but for tc */
     case CFG_C2: desig_values(d, g_set[SET_C][IT_CERT], g_set[SET_C][IT_KEY], g_tc_both); break;
     case CFG_BADF:
         for (int i = 0; i < NIT; i++)
@@ -469,7 +470,7 @@ static int setup_family(const char *fam)
         add_op(OP_X, 0, 0);
         add_op(OP_XS, 0, 0);
     } else if (!strcmp(fam, "split")) {
-        for (int c = CFG_S1; c <= CFG_S4; c++)
+        for (int c = CFG_S1; c <= CFG_S5; c++)
             add_op(OP_SRV, c, 0);
         add_op(OP_CONN, CFG_DEF, CFG_INH);
         add_op(OP_CONN, CFG_C2, CFG_INH);
@@ -479,6 +480,7 @@ static int setup_family(const char *fam)
         add_op(OP_CONN, CFG_DEF, CFG_S2);
         add_op(OP_CONN, CFG_C2, CFG_S3);
         add_op(OP_CONN, CFG_C2, CFG_S4);
+        add_op(OP_CONN, CFG_C2, CFG_S5);
         add_op(OP_X, 0, 0);
         add_op(OP_XS, 0, 0);
     } else if (!strncmp(fam, "bad:", 4)) {
